@@ -26,7 +26,7 @@ ASSUMPTIONS = ["numbers read from the release file are compared to 4e-16 relativ
                "a row exactly one step after the last simulated step but before a stop that is off the step grid is not judged"]
 TIERS = {"quick": dict(runs=1500, budget_s=50, shrink=150),
          "thorough": dict(runs=150000, budget_s=900, shrink=250)}
-REQUIRED_PROBES = ["continuous", "reversed", "row_at_stop", "row_before_start", "mult_zero", "names_in_config",
+REQUIRED_PROBES = ["missing_value_in_column", "continuous", "reversed", "row_at_stop", "row_before_start", "mult_zero", "names_in_config",
                    "lonlat_release", "time_column", "continuous_first_before_start"]
 
 PROFILE = gen.profile(
@@ -53,6 +53,11 @@ def generate(seed: int, tier: str, idx: int) -> dict:
                 rel["rows"].append(row)
                 tag += 1
         rel["rows"].sort(key=lambda r: r["step"])
+    if any(c["name"] == "fvar" for c in rel["extra"]) and s.chance(0.3):
+        # missing values ("nan") in a float column; the row after a missing one has a value and the other way round
+        for k, r in enumerate(rel["rows"]):
+            if s.chance(0.4) or k == 1:
+                r["fvar"] = None
     if s.chance(0.25):
         # positions given as longitude / latitude
         from ladsim.oracles.c16 import xy_to_lonlat
@@ -110,6 +115,10 @@ def execute(sc) -> Result:
             res.probes["lonlat_release"] += 1
         if any(c["type"] == "time" for c in rel.get("extra", [])):
             res.probes["time_column"] += 1
+        if any(r.get("fvar", 0) is None for r in rel["rows"]):
+            res.probes["missing_value_in_column"] += 1
+            if rel.get("continuous") and len({r["step"] for r in rel["rows"]}) == len(rel["rows"]) > 1:
+                res.probes["missing_value_continuous_one_row_per_time"] += 1
         events = 0
         npid_expected = 0
         grid = None
@@ -174,6 +183,9 @@ def execute(sc) -> Result:
                     elif c["type"] == "int":
                         want = int(r[name])
                         same = got is not None and int(got) == want
+                    elif r[name] is None:
+                        want = float("nan")
+                        same = got is not None and np.isnan(got)
                     else:
                         want = float(r[name])
                         same = got is not None and same_number(got, want)
